@@ -7,6 +7,7 @@ import math
 import typing
 import warnings
 from .._bit_length_set import BitLengthSet
+from .._error import format_integer
 from ._serializable import SerializableType, TypeParameterError, AggregationFailure
 from ._primitive import UnsignedIntegerType, PrimitiveType
 
@@ -105,13 +106,16 @@ class FixedLengthArrayType(ArrayType):
 
     def __str__(self) -> str:
         try:
-            return "%s[%d]" % (self.element_type, self.capacity)
+            return "%s[%s]" % (self.element_type, format_integer(self.capacity))
         except AttributeError:  # pragma: no cover
             return "FixedLengthArrayType(UNINITIALIZED)"
 
     def __repr__(self) -> str:
         try:
-            return "FixedLengthArrayType(element_type=%r, capacity=%r)" % (self.element_type, self.capacity)
+            return "FixedLengthArrayType(element_type=%r, capacity=%s)" % (
+                self.element_type,
+                format_integer(self.capacity),
+            )
         except AttributeError:  # pragma: no cover
             return "FixedLengthArrayType(UNINITIALIZED)"
 
